@@ -4,6 +4,7 @@ import (
 	"fmt"
 	"runtime"
 	"sync"
+	"sync/atomic"
 	"testing"
 	"time"
 
@@ -234,12 +235,17 @@ func TestSeveralCoreHandlers(t *testing.T) {
 				for k := range conns {
 					coreDevices[k[0]] = true
 				}
+				// the core handler is inside its write for a moment (a connection takes its time); the stamp
+				// that counts as "the core handler's datagram is out" is taken when the write is through:
+				// an application handler started meanwhile has an earlier stamp
+				var writeThrough atomic.Uint64
 				for _, d := range acting {
 					conns[[2]int{d, st.S}].cap.SetOnWrite(func([]byte) {
 						for i := 0; i < 8; i++ {
 							runtime.Gosched() // let already started application handlers get ahead, if there are any
 						}
 						time.Sleep(300 * time.Microsecond) // (also on a busy machine)
+						writeThrough.Store(world.Stamp())
 					})
 				}
 				start := world.Stamp()
@@ -275,7 +281,7 @@ func TestSeveralCoreHandlers(t *testing.T) {
 				}
 				for h := range handlers {
 					for _, at := range handlers[h].since(start, ski) {
-						if at < coreDone {
+						if at < max(coreDone, writeThrough.Load()) {
 							world.Fail(t, "C15/application-before-core/"+shape, "application handler %d started handling device-add for %s at stamp %d, but the core handlers were still at work: the last subscription call of a local device was written at stamp %d\nhistory: %v", h, ski, at, coreDone, plan)
 						}
 					}
